@@ -5,19 +5,41 @@
 (* predicates to evaluate on it.  Every predicate is evaluated on every event that names it;  *)
 (* all failing (event, predicate) pairs are collected, so a known finding cannot hide a new    *)
 (* violation behind it.  Acceptance: the whole trace is consumed (postcondition on diameter). *)
-EXTENDS Reference, TLC, Json, IOUtils
+EXTENDS Relations, TLC, Json, IOUtils
 
 VARIABLES l, bad, nt
 vars == <<l, bad, nt>>
 
 Rec == ndJsonDeserialize(IOEnv.TRACE)
 
+Base(ev, i) == Rec[i - ev.rel.of]
+Base2(ev, i) == Rec[i - ev.rel.of2]
+
+C06_OK(ev, i) == LET a == Base(ev, i) IN
+  /\ ShiftedInput(a.rows, ev.rows, ev.rel.k, ev.rel.n)
+  /\ NonEmptyDrawing(a.rows)
+  /\ ShiftedDoc(a.doc, ev.doc, ev.rel.k, ev.rel.n)
+C10_OK(ev, i) == LET a == Base(ev, i) b == Base2(ev, i) IN
+  IF ev.rel.mode = "side"
+  THEN /\ SideBySide(a.rows, b.rows, ev.rows, ev.rel.at)
+       /\ \A r \in 1..Len(a.wid) : \A c \in 1..Len(a.wid[r]) : a.wid[r][c] = 1   \* columns = characters
+       /\ UnionDoc(a.doc, b.doc, ev.doc, 8000 * ev.rel.at, 0)
+  ELSE /\ Stacked(a.rows, b.rows, ev.rows, ev.rel.gap)
+       /\ UnionDoc(a.doc, b.doc, ev.doc, 0, 16000 * (Len(a.rows) + ev.rel.gap))
+C11_OK(ev, i) == LET a == Base(ev, i) IN a.rows = ev.rows /\ ScaledDoc(a.doc, ev.doc)
+C17_OK(ev, i) == LET a == Base(ev, i) IN EolVariant(a.rows, ev.rows) /\ SameDoc(a.doc, ev.doc)
+
 Holds(ev, i, p) ==
   CASE p = "C03" -> C03_OK(ev)
+    [] p = "C06" -> C06_OK(ev, i)
+    [] p = "C10" -> C10_OK(ev, i)
+    [] p = "C11" -> C11_OK(ev, i)
+    [] p = "C17" -> C17_OK(ev, i)
     [] OTHER -> FALSE      \* an unknown predicate name is reported, never silently accepted
 
 NonTrivial(ev, i, p) ==
   CASE p = "C03" -> C03_NT(ev)
+    [] p \in {"C06", "C10", "C11", "C17"} -> Len(ev.doc.elems) > 0
     [] OTHER -> FALSE
 
 Init == l = 1 /\ bad = {} /\ nt = 0
@@ -28,7 +50,8 @@ Next == /\ l <= Len(Rec)
            /\ nt' = nt + Cardinality({ q \in ps : NonTrivial(ev, l, q) })
 Spec == Init /\ [][Next]_vars
 
-Report == l = Len(Rec) + 1 => /\ PrintT(<<"BADSET", bad>>)
+Report == l = Len(Rec) + 1 => /\ \A b \in bad : PrintT(<<"BAD", b[1], b[2]>>)
+                              /\ PrintT(<<"BADCOUNT", Cardinality(bad)>>)
                               /\ PrintT(<<"NONTRIVIAL", nt>>)
 Accepted == TLCGet("stats").diameter = Len(Rec) + 1
 =============================================================================
